@@ -52,62 +52,93 @@ theorem clashPair_of {a b : V} {e : String × List String} {k : String} {ns : Li
   simp at hk hn ⊢
   exact ⟨hk, hn⟩
 
+theorem relAddOne_mem {seen seen' : List (String × List String)} {v : V} (h : relAddOne seen v = .ok seen') :
+    ∀ e, e ∈ seen' → e ∈ seen ∨ relKey v = some e := by
+  intro e he
+  unfold relAddOne at h
+  cases hk : relKey v with
+  | none => rw [hk] at h; simp at h; subst h; exact Or.inl he
+  | some p =>
+    obtain ⟨k, ns⟩ := p
+    rw [hk] at h
+    simp only at h
+    cases hf : seen.find? (fun e => e.1 == k) with
+    | none =>
+      rw [hf] at h
+      simp at h
+      subst h
+      rcases List.mem_append.1 he with h' | h'
+      · exact Or.inl h'
+      · simp at h'; exact Or.inr (by rw [h'])
+    | some first =>
+      rw [hf] at h
+      simp only at h
+      split at h
+      · simp at h; subst h; exact Or.inl he
+      · simp at h
+
+theorem relAddOne_panic {seen : List (String × List String)} {v : V} {s : Site} (h : relAddOne seen v = .panic s) :
+    ∃ e, e ∈ seen ∧ ∃ k ns, relKey v = some (k, ns) ∧ (e.1 == k) = true ∧ e.2 ≠ ns := by
+  unfold relAddOne at h
+  cases hk : relKey v with
+  | none => rw [hk] at h; simp at h
+  | some p =>
+    obtain ⟨k, ns⟩ := p
+    rw [hk] at h
+    simp only at h
+    cases hf : seen.find? (fun e => e.1 == k) with
+    | none => rw [hf] at h; simp at h
+    | some first =>
+      rw [hf] at h
+      simp only at h
+      by_cases hall : (first.2.all fun n => ns.contains n) = true
+      · rw [if_pos hall] at h; simp at h
+      · refine ⟨first, List.mem_of_find?_eq_some hf, k, ns, rfl, ?_, ?_⟩
+        · have := List.find?_some hf
+          simpa using this
+        · intro heq
+          apply hall
+          rw [heq]
+          simp [List.all_eq_true]
+
+/-- a panic of the relation builders means: some member clashes with an entry that is already there or with an
+earlier member -/
 theorem relAdd_panic : ∀ (vs : List V) (seen : List (String × List String)) (s : Site),
     relAdd seen vs = .panic s →
-    ∃ e, e ∈ seen ++ vs.filterMap relKey ∧ ∃ v, v ∈ vs ∧ ∃ k ns, relKey v = some (k, ns) ∧ (e.1 == k) = true ∧ e.2 ≠ ns := by
+    ∃ e, (e ∈ seen ∨ ∃ a, a ∈ vs ∧ relKey a = some e) ∧
+      ∃ v, v ∈ vs ∧ ∃ k ns, relKey v = some (k, ns) ∧ (e.1 == k) = true ∧ e.2 ≠ ns := by
   intro vs
   induction vs with
   | nil => intro seen s h; simp [relAdd] at h
   | cons v rest ih =>
     intro seen s h
     unfold relAdd at h
-    cases hk : relKey v with
-    | none =>
-      rw [hk] at h
-      obtain ⟨e, he, w, hw, k, ns, hr, h1, h2⟩ := ih seen s h
+    rcases bind_panic h with h' | ⟨seen', hs, h'⟩
+    · obtain ⟨e, he, k, ns, hk, h1, h2⟩ := relAddOne_panic h'
+      exact ⟨e, Or.inl he, v, List.mem_cons_self, k, ns, hk, h1, h2⟩
+    · obtain ⟨e, he, w, hw, k, ns, hr, h1, h2⟩ := ih seen' s h'
       refine ⟨e, ?_, w, List.mem_cons_of_mem _ hw, k, ns, hr, h1, h2⟩
-      simpa [List.filterMap_cons, hk] using he
-    | some p =>
-      obtain ⟨k, ns⟩ := p
-      rw [hk] at h
-      simp only at h
-      cases hf : seen.find? (fun e => e.1 == k) with
-      | none =>
-        rw [hf] at h
-        obtain ⟨e, he, w, hw, k', ns', hr, h1, h2⟩ := ih (seen ++ [(k, ns)]) s h
-        refine ⟨e, ?_, w, List.mem_cons_of_mem _ hw, k', ns', hr, h1, h2⟩
-        simpa [List.filterMap_cons, hk, List.append_assoc] using he
-      | some first =>
-        rw [hf] at h
-        simp only at h
-        by_cases hall : (first.2.all fun n => ns.contains n) = true
-        · rw [if_pos hall] at h
-          obtain ⟨e, he, w, hw, k', ns', hr, h1, h2⟩ := ih seen s h
-          refine ⟨e, ?_, w, List.mem_cons_of_mem _ hw, k', ns', hr, h1, h2⟩
-          simp only [List.filterMap_cons, hk]
-          rcases List.mem_append.1 he with h' | h'
-          · exact List.mem_append.2 (Or.inl h')
-          · exact List.mem_append.2 (Or.inr (List.mem_cons_of_mem _ h'))
-        · refine ⟨first, List.mem_append.2 (Or.inl (List.mem_of_find?_eq_some hf)), v, List.mem_cons_self, k, ns, hk, ?_, ?_⟩
-          · have := List.find?_some hf
-            simpa using this
-          · intro heq
-            apply hall
-            rw [heq]
-            simp [List.all_eq_true]
+      rcases he with he | ⟨a, ha, hae⟩
+      · rcases relAddOne_mem hs e he with h'' | h''
+        · exact Or.inl h''
+        · exact Or.inr ⟨v, List.mem_cons_self, h''⟩
+      · exact Or.inr ⟨a, List.mem_cons_of_mem _ ha, hae⟩
 
 theorem bucketClash_of {vs : List V} {a b : V} (ha : a ∈ vs) (hb : b ∈ vs) (h : clashPair a b = true) :
     bucketClash vs = true := by
   simp only [bucketClash, List.any_eq_true]
   exact ⟨a, ha, b, hb, h⟩
 
+theorem relAdd_nil_panic {vs : List V} {s : Site} (h : relAdd [] vs = .panic s) : bucketClash vs = true := by
+  obtain ⟨e, he, v, hv, k, ns, hr, h1, h2⟩ := relAdd_panic vs [] s h
+  rcases he with he | ⟨a, ha, hae⟩
+  · simp at he
+  · exact bucketClash_of ha hv (clashPair_of hae hr h1 h2)
+
 theorem newSet_panic {vs : List V} {s : Site} (h : newSet vs = .panic s) : bucketClash vs = true := by
   unfold newSet at h
   rcases bind_panic h with h' | ⟨_, _, h'⟩
-  · obtain ⟨e, he, v, hv, k, ns, hr, h1, h2⟩ := relAdd_panic vs [] s h'
-    simp only [List.nil_append, List.mem_filterMap] at he
-    obtain ⟨a, ha, hae⟩ := he
-    exact bucketClash_of ha hv (clashPair_of hae hr h1 h2)
+  · exact relAdd_nil_panic h'
   · simp at h'
 
 theorem withSet_panic {xs : List V} {v : V} {s : Site} (h : withSet xs v = .panic s) :
